@@ -164,7 +164,8 @@ def handleRequest (it : Item) : ReqResult :=
             { reply := some ⟨MSG_RESULT, m.seq, m.serId, false, md.setsAnn⟩, execs := [md.token],
               tracks := md.tracks, untracks := md.untracks, session := md.session }
           | .returns .otherErr =>   -- serializer.dumps(data) raises some Exception: reported like any error
-            { reply := some (errReply m), execs := [md.token], tracks := md.tracks, untracks := md.untracks, session := md.session }
+            { reply := some (errReply m), execs := [md.token], tracks := md.tracks, untracks := md.untracks, session := md.session,
+              raised := md.isCallback }     -- `isCallback` was set before the call: any later exception is re-raised
           | .returns .serializeErr =>   -- ... raises SerializeError (a CommunicationError): reported, then re-raised
             { reply := some (errReply m), execs := [md.token], tracks := md.tracks, untracks := md.untracks,
               session := md.session, raised := true }
